@@ -149,3 +149,19 @@ Theorem C08_series_parallel_binary_is_regular : forall m n M, wf_mat m n M = tru
   sp_greedy false m n M = true -> TuModel.regular_bf m n M = true.
 Proof. exact SpTU.sp_binary_regular. Qed.
 Print Assumptions C08_series_parallel_binary_is_regular.
+
+(* ---------- the judge accepts EXACTLY the records that satisfy its specification: besides soundness (above) also completeness,
+   i.e. a record of a correct answer is never rejected (JudgeComplete2.v) ---------- *)
+From Cmr Require JudgeComplete2.
+Theorem C08_judge_sp_accepts_exactly_the_specification :
+    forall (rec : list Z) (tern : bool) (api maxred : Z) (wv wr wd wviol ws : bool) 
+    (m n : nat) (M : mat) (rc v nred : Z) (reds : list (Z * Z))
+    (reduced viol : option (list nat * list nat)) (sepa : option (list Z * list Z * Z)) 
+    (rest : list Z),
+    SpProofs.sp_input rec =
+    Some
+    (tern, api, maxred, (wv, wr, wd, wviol, ws), (m, n, M), rc, v, nred, reds, reduced, viol, sepa, rest) ->
+    SpModel.judge_sp rec = 0%Z <->
+    JudgeComplete2.sp_spec tern maxred wv wr wd wviol ws m n M rc v nred reds reduced viol sepa.
+Proof. exact JudgeComplete2.judge_sp_iff. Qed.
+Print Assumptions C08_judge_sp_accepts_exactly_the_specification.
